@@ -695,6 +695,10 @@ func (ex *Exec) specCall(env *Env, e *ECall) *Value {
 		// str(b): the string holding the current contents of byte slice b
 		b := arg(0)
 		return &Value{T: types.Typ[types.String], C: []*Term{ex.backingArrayRaw(env.st, b, 0), b.C[1], b.C[2]}}
+	case "haskey":
+		m, k := arg(0), arg(1)
+		has, _ := ex.mapReadRaw(env.st, m, k)
+		return ex.boolV(tb.And(has, tb.Ne(m.C[0], ex.refLit(0))))
 	case "typeis":
 		x := arg(0)
 		name, ok := e.Args[1].(*EStr)
@@ -751,10 +755,20 @@ func (ex *Exec) specCall(env *Env, e *ECall) *Value {
 		if len(uf.Params) != len(e.Args) {
 			specFail("%s: expected %d arguments", e.Fun, len(uf.Params))
 		}
-		tb.DeclareUF(uf.Name, uf.Params, uf.Ret)
 		var as []*Term
+		var sorts []Sort
 		for i := range e.Args {
 			v := arg(i)
+			if uf.Params[i] == "String" {
+				if !isStringType(v.T) {
+					specFail("%s: argument %d must be a string", e.Fun, i)
+				}
+				as = append(as, v.C...)
+				for _, t := range v.C {
+					sorts = append(sorts, t.Sort)
+				}
+				continue
+			}
 			t := v.C[0]
 			if t.Sort != uf.Params[i] {
 				if uf.Params[i].IsBV() && t.ival != nil {
@@ -764,12 +778,48 @@ func (ex *Exec) specCall(env *Env, e *ECall) *Value {
 				}
 			}
 			as = append(as, t)
+			sorts = append(sorts, t.Sort)
 		}
+		if uf.Ret == "String" {
+			l := ex.L.Of(types.Typ[types.String])
+			v := &Value{T: types.Typ[types.String], C: make([]*Term, 3)}
+			for k, c := range l.Comps {
+				n := fmt.Sprintf("%s$%d", uf.Name, k)
+				tb.DeclareUF(n, sorts, c.Sort)
+				v.C[k] = tb.App(n, c.Sort, as...)
+			}
+			return v
+		}
+		tb.DeclareUF(uf.Name, sorts, uf.Ret)
 		r := tb.App(uf.Name, uf.Ret, as...)
 		if uf.Ret == SBool {
 			return ex.boolV(r)
 		}
 		return ex.specInt(r)
+	}
+	// functional extern used as a spec function
+	if c := ex.prog.externFor(e.Fun); c != nil && c.Functional && c.Fn != nil {
+		var args []*Value
+		for i := range e.Args {
+			args = append(args, arg(i))
+		}
+		res := c.Fn.Signature.Results()
+		var retT types.Type = res
+		if res.Len() == 1 {
+			retT = res.At(0).Type()
+		}
+		// literal arguments must be given the parameter types' shapes
+		return ex.functionalResult(c, args, retT)
+	}
+	if e.Fun == "proj" {
+		t := arg(0)
+		idx, ok := e.Args[1].(*EInt)
+		if !ok {
+			specFail("proj needs a literal index")
+		}
+		var k int
+		fmt.Sscanf(idx.Val, "%d", &k)
+		return ex.extract(t, k)
 	}
 	specFail("unknown spec function %s", e.Fun)
 	return nil
